@@ -135,6 +135,8 @@ func propC16(w *World, r *Report) {
 	r.Assumes("effects of functions outside seehuhn.de/go/{sfnt,postscript,geom,dijkstra} are taken from the hand-written table externals.go; a callee receiving tracked memory that is not in the table is reported as undecided")
 	r.Assumes("regexp.Regexp, strings.Replacer, language.Matcher and time.Time are safe for concurrent use as documented")
 
+	RunClosureState(w, r, w.LibFuncs())
+	r.Floor("closurestate", 3)
 	mutators := map[string]bool{"InstallCMap": true, "EnsureGlyphNames": true}
 	var entries []*ssa.Function
 
@@ -639,4 +641,97 @@ func ownedProvenance(e *Effects, m *ssa.Function, addr ssa.Value, layFields map[
 		return false
 	}
 	return ok(addr)
+}
+
+// RunClosureState: function values that outlive the call that creates them
+// (returned, or stored into a structure such as a font's FDSelect) are
+// shared by every goroutine that uses the structure.  Such a closure must
+// not assign its captured variables: a cursor or cache kept in captured
+// variables turns a read-only query into a write.
+func RunClosureState(w *World, r *Report, fns []*ssa.Function) {
+	r.Rule("closurestate: no function literal of the library that escapes the call creating it (it is returned or stored, possibly after conversion to a named function type) assigns one of its captured variables or a field/element reached through one: the closure is shared by all users of the object that holds it")
+	for _, fn := range fns {
+		if fn.Blocks == nil {
+			continue
+		}
+		for _, b := range fn.Blocks {
+			for _, in := range b.Instrs {
+				mc, ok := in.(*ssa.MakeClosure)
+				if !ok {
+					continue
+				}
+				anon, ok := mc.Fn.(*ssa.Function)
+				if !ok || anon.Blocks == nil {
+					continue
+				}
+				if !closureEscapes(mc, 0) {
+					continue
+				}
+				key := r.MkKey("closurestate", fnName(fn), "escaping closure "+anon.Name())
+				bad := ""
+				for _, ab := range anon.Blocks {
+					for _, ai := range ab.Instrs {
+						var addr ssa.Value
+						switch x := ai.(type) {
+						case *ssa.Store:
+							addr = x.Addr
+						case *ssa.MapUpdate:
+							addr = x.Map
+						}
+						if addr == nil {
+							continue
+						}
+						// does the address derive from a free variable?
+						for v := range backSlice(addr) {
+							if fv, ok := v.(*ssa.FreeVar); ok {
+								bad = "it assigns (through) the captured variable " + fv.Name() + " at " + w.Pos(ai.Pos())
+							}
+						}
+					}
+				}
+				if bad == "" {
+					r.OK("closurestate", key, w.Pos(mc.Pos()), "does not assign captured variables")
+				} else {
+					r.Fail("closurestate", key, w.Pos(mc.Pos()), "the function literal escapes ("+fnName(fn)+" returns or stores it) and "+bad+": every call, also from read-only operations running concurrently, writes that shared state", nil)
+				}
+			}
+		}
+	}
+}
+
+func closureEscapes(v ssa.Value, depth int) bool {
+	if depth > 5 || v.Referrers() == nil {
+		return false
+	}
+	for _, ref := range *v.Referrers() {
+		switch x := ref.(type) {
+		case *ssa.Return:
+			return true
+		case *ssa.Store:
+			if x.Val == v {
+				// a store into a local variable that is only called does not escape; be simple: any store escapes unless the target is an Alloc that is not itself escaping
+				if al, ok := x.Addr.(*ssa.Alloc); ok && !al.Heap {
+					continue
+				}
+				return true
+			}
+		case *ssa.MapUpdate:
+			if x.Value == v {
+				return true
+			}
+		case *ssa.ChangeType:
+			if closureEscapes(x, depth+1) {
+				return true
+			}
+		case *ssa.MakeInterface:
+			if closureEscapes(x, depth+1) {
+				return true
+			}
+		case *ssa.Phi:
+			if closureEscapes(x, depth+1) {
+				return true
+			}
+		}
+	}
+	return false
 }
